@@ -84,3 +84,48 @@ def mkfeat(spec, parent=None, sequence_name="chr1", **kw):
         is_primary_feature=spec.get("is_primary_feature"), parent_or_seq_chunk_parent=parent)
     args.update(kw)
     return FeatureInterval(**args)
+from inscripta.biocantor.gene.gene import GeneInterval  # noqa: E402
+from inscripta.biocantor.gene.feature import FeatureIntervalCollection  # noqa: E402
+from inscripta.biocantor.gene.variants import VariantInterval, VariantIntervalCollection  # noqa: E402
+from inscripta.biocantor.gene.collections import AnnotationCollection  # noqa: E402
+
+
+def mkgene(spec, parent=None, sequence_name="chr1", **kw):
+    txs = [mktx(t, parent, sequence_name=sequence_name) for t in spec["transcripts"]]
+    args = dict(transcripts=txs, gene_id=spec.get("gene_id"), gene_symbol=spec.get("gene_symbol"),
+                gene_type=Biotype[spec["gene_type"]] if spec.get("gene_type") else None, locus_tag=spec.get("locus_tag"),
+                qualifiers=spec.get("qualifiers") or None, sequence_name=sequence_name, parent_or_seq_chunk_parent=parent)
+    args.update(kw)
+    return GeneInterval(**args)
+
+
+def mkfc(spec, parent=None, sequence_name="chr1", **kw):
+    feats = [mkfeat(f, parent, sequence_name=sequence_name) for f in spec["features"]]
+    args = dict(feature_intervals=feats, feature_collection_name=spec.get("feature_collection_name"),
+                feature_collection_id=spec.get("feature_collection_id"), feature_collection_type=spec.get("feature_collection_type"),
+                locus_tag=spec.get("locus_tag"), qualifiers=spec.get("qualifiers") or None, sequence_name=sequence_name,
+                parent_or_seq_chunk_parent=parent)
+    args.update(kw)
+    return FeatureIntervalCollection(**args)
+
+
+def mkvar(v, parent=None):
+    return VariantInterval(v["start"], v["end"], v["sequence"], v["variant_type"], phase_block=v.get("phase_block"),
+                           variant_name=v.get("variant_name"), variant_id=v.get("variant_id"), qualifiers=v.get("qualifiers") or None,
+                           parent_or_seq_chunk_parent=parent)
+
+
+def mkvc(spec, parent=None, sequence_name="chr1"):
+    return VariantIntervalCollection([mkvar(v, parent) for v in spec["variants"]], variant_collection_name=spec.get("variant_collection_name"),
+                                     variant_collection_id=spec.get("variant_collection_id"), sequence_name=sequence_name,
+                                     qualifiers=spec.get("qualifiers") or None, parent_or_seq_chunk_parent=parent)
+
+
+def mkcollection(spec, parent=None, sequence_name="chr1"):
+    genes = [mkgene(g, parent, sequence_name) for g in spec.get("genes", [])]
+    fcs = [mkfc(f, parent, sequence_name) for f in spec.get("feature_collections", [])]
+    vcs = [mkvc(v, parent, sequence_name) for v in spec.get("variant_collections", [])]
+    return AnnotationCollection(feature_collections=fcs or None, genes=genes or None, variant_collections=vcs or None,
+                                name=spec.get("name"), id=spec.get("id"), sequence_name=sequence_name,
+                                qualifiers=spec.get("qualifiers") or None, start=spec.get("start"), end=spec.get("end"),
+                                parent_or_seq_chunk_parent=parent)
